@@ -1945,15 +1945,18 @@ impl<'a> Socket<'a> {
             // SYN packets in the LISTEN state change it to SYN-RECEIVED.
             (State::Listen, TcpControl::Syn) => {
                 tcp_trace!("received SYN");
-                if let Some(max_seg_size) = repr.max_seg_size {
-                    // Treat a zero MSS as if the option were absent, like Linux does.
-                    if max_seg_size != 0 {
-                        self.remote_mss = (max_seg_size as usize).max(MIN_REMOTE_MSS);
-                        self.congestion_controller
-                            .inner_mut()
-                            .set_mss(self.remote_mss);
+                // What an earlier handshake on this listener announced (one that a reset sent
+                // back to LISTEN) says nothing about this peer: without the option the default
+                // applies. A zero MSS is treated as if the option were absent, like Linux does.
+                self.remote_mss = match repr.max_seg_size {
+                    Some(max_seg_size) if max_seg_size != 0 => {
+                        (max_seg_size as usize).max(MIN_REMOTE_MSS)
                     }
-                }
+                    _ => DEFAULT_MSS,
+                };
+                self.congestion_controller
+                    .inner_mut()
+                    .set_mss(self.remote_mss);
 
                 self.tuple = Some(Tuple {
                     local: IpEndpoint::new(ip_repr.dst_addr(), repr.dst_port),
